@@ -286,4 +286,5 @@ def main():
               {'impl_paths': ni, 'path_products': nprod})
 
 if __name__ == '__main__':
-    main()
+    from lib.report import guarded
+    guarded(main)
